@@ -170,8 +170,12 @@ PZero  == [total |-> 0, free |-> 0, buffers |-> 0, cached |-> 0, srecl |-> 0, sh
            lows1 |-> <<0>>, lows2 |-> <<0, 0>>]
 PZeroTotal == [PNormal EXCEPT !.total = 0, !.free = 0]
 
+\* Each family is a predicate that binds `inp` (TLC streams the initial states out of
+\* the nested quantifiers instead of building the set of records).
 VmSubsets(Pats, Shareds, Inacts, Files, Zones) ==
-  { [ k |-> "vm", total |-> p.total, free |-> p.free,
+  \E p \in Pats, b \in BOOLEAN, c \in BOOLEAN, s \in BOOLEAN, sh \in Shareds, a \in BOOLEAN,
+     ia \in Inacts, sl \in BOOLEAN, ma \in {"absent", "zero", "value"}, f \in Files, z \in Zones :
+   inp = [ k |-> "vm", total |-> p.total, free |-> p.free,
       buffers |-> Pick(b, p.buffers), cached |-> Pick(c, p.cached), srecl |-> Pick(s, p.srecl),
       shmem |-> Pick(sh \in {"shmem", "both"}, p.shmem),
       memshared |-> Pick(sh \in {"memshared", "both"}, p.memshared),
@@ -186,8 +190,6 @@ VmSubsets(Pats, Shareds, Inacts, Files, Zones) ==
       ifile |-> Pick(f \in {"both", "ifile"}, p.ifile),
       zone |-> z # "absent",
       lows |-> IF z = "two" THEN p.lows2 ELSE IF z = "one" THEN p.lows1 ELSE <<>> ]
-    : p \in Pats, b \in BOOLEAN, c \in BOOLEAN, s \in BOOLEAN, sh \in Shareds, a \in BOOLEAN,
-      ia \in Inacts, sl \in BOOLEAN, ma \in {"absent", "zero", "value"}, f \in Files, z \in Zones }
 
 \* everything present, as a 6.x kernel shows it
 VmAll(p) == [ k |-> "vm", total |-> p.total, free |-> p.free, buffers |-> p.buffers,
@@ -200,37 +202,40 @@ GridA == Grid \cup {Absent}
 
 \* used / cached / simple estimate over the value grid
 VmGridUsed ==
-  { [VmAll(PNormal) EXCEPT !.total = t, !.free = f, !.buffers = b, !.cached = c, !.srecl = s,
-                           !.mavail = ma, !.zone = FALSE, !.lows = <<>>]
-    : t \in Grid, f \in Grid, b \in GridA, c \in GridA, s \in GridA, ma \in {Absent, 3} }
+  \E t \in Grid, f \in Grid, b \in GridA, c \in GridA, s \in GridA, ma \in {Absent, 3} :
+    inp = [VmAll(PNormal) EXCEPT !.total = t, !.free = f, !.buffers = b, !.cached = c, !.srecl = s,
+                                 !.mavail = ma, !.zone = FALSE, !.lows = <<>>]
 
 \* kernel-provided MemAvailable against total and free
 VmGridKernel ==
-  { [VmAll(PNormal) EXCEPT !.total = t, !.free = f, !.mavail = ma, !.cached = c, !.buffers = 1, !.srecl = 1]
-    : t \in Grid, f \in Grid, ma \in Grid, c \in {Absent, 2} }
+  \E t \in Grid, f \in Grid, ma \in Grid, c \in {Absent, 2} :
+    inp = [VmAll(PNormal) EXCEPT !.total = t, !.free = f, !.mavail = ma, !.cached = c,
+                                 !.buffers = 1, !.srecl = 1]
 
 \* the watermark estimate over the value grid
 GridZones == {<<FALSE, <<>> >>, <<TRUE, <<>> >>, <<TRUE, <<0>> >>, <<TRUE, <<1>> >>, <<TRUE, <<1, 1>> >>}
 VmGridEstimate ==
-  { [VmAll(PNormal) EXCEPT !.total = t, !.free = f, !.mavail = ma, !.cached = c, !.buffers = 0,
-                           !.afile = af, !.ifile = ifl, !.srecl = s, !.zone = z[1], !.lows = z[2]]
-    : t \in Grid, f \in Grid, ma \in {Absent, 0}, c \in {Absent, 0, 2, 5}, af \in GridA,
-      ifl \in {0, 2, 5}, s \in {Absent, 0, 1, 3}, z \in GridZones }
+  \E t \in Grid, f \in Grid, ma \in {Absent, 0}, c \in {Absent, 0, 2, 5}, af \in GridA,
+     ifl \in {0, 2, 5}, s \in {Absent, 0, 1, 3}, z \in GridZones :
+    inp = [VmAll(PNormal) EXCEPT !.total = t, !.free = f, !.mavail = ma, !.cached = c, !.buffers = 0,
+                                 !.afile = af, !.ifile = ifl, !.srecl = s, !.zone = z[1], !.lows = z[2]]
 
-Sw(st, sf, sy, vm, pi, po) == [k |-> "swap", stotal |-> st, sfree |-> sf, sys |-> sy,
-                               vmstat |-> vm, pin |-> pi, pout |-> po]
+Sw(st, sf, sy, v) == [k |-> "swap", stotal |-> st, sfree |-> sf, sys |-> sy,
+                      vmstat |-> v[1], pin |-> v[2], pout |-> v[3]]
 \* sysinfo(2) figures that differ from meminfo's (a container shows its own meminfo)
 SysOther == {<<70, 30, 1>>, <<9, 4, 4096>>, <<0, 0, 1>>}
 VmstatForms == {<<FALSE, Absent, Absent>>, <<TRUE, Absent, Absent>>, <<TRUE, 3, 7>>, <<TRUE, 0, 0>>}
 \* when only one of SwapTotal/SwapFree is shown, sysinfo agrees with the one shown
-SysAgree(st, sf, u) == <<IF Has(st) THEN (B(st) \div u) ELSE 8 * (KB \div u) * 4,
-                         IF Has(sf) THEN (B(sf) \div u) ELSE 2 * (KB \div u),
+\* (the other one: total 32 kB, free 2 kB)
+SysAgree(st, sf, u) == <<IF Has(st) THEN B(st) \div u ELSE 32 * (KB \div u),
+                         IF Has(sf) THEN B(sf) \div u ELSE 2 * (KB \div u),
                          u>>
 SwapInputs(G) ==
-       { Sw(st, sf, sy, v[1], v[2], v[3]) : st \in G, sf \in G, sy \in SysOther, v \in VmstatForms }
-  \cup { Sw(Absent, Absent, sy, v[1], v[2], v[3]) : sy \in SysOther \cup {<<5, 5, 4096>>, <<5, 0, 1>>}, v \in VmstatForms }
-  \cup { Sw(st, Absent, SysAgree(st, Absent, u), v[1], v[2], v[3]) : st \in G \ {0}, u \in {1, 1024}, v \in VmstatForms }
-  \cup { Sw(Absent, sf, SysAgree(Absent, sf, u), v[1], v[2], v[3]) : sf \in G, u \in {1, 1024}, v \in VmstatForms }
+  \E v \in VmstatForms :
+    \/ \E st \in G, sf \in G, sy \in SysOther : inp = Sw(st, sf, sy, v)
+    \/ \E sy \in SysOther \cup {<<5, 5, 4096>>, <<5, 0, 1>>} : inp = Sw(Absent, Absent, sy, v)
+    \/ \E st \in G \ {0}, u \in {1, 1024} : inp = Sw(st, Absent, SysAgree(st, Absent, u), v)
+    \/ \E sf \in G, u \in {1, 1024} : inp = Sw(Absent, sf, SysAgree(Absent, sf, u), v)
 
 QuickPats == {PNormal, PCacheOver, PAvailOver, PLowFree, PZero, PZeroTotal, PFull, PIdle}
 
@@ -249,9 +254,8 @@ Family(n) ==
 \* the statement conditions its range claims on free <= total; such worlds are the binding ones
 Binding(i) == IF i.k = "vm" THEN i.free <= i.total ELSE SFree(i) <= STotal(i)
 
-Inputs == {i \in UNION {Family(n) : n \in Families} : Binding(i)}
-
-Init == /\ inp \in Inputs
+Init == /\ \E n \in Families : Family(n)
+        /\ Binding(inp)
         /\ out = Pending
         /\ ev = [op |-> "init"]
 
